@@ -1063,6 +1063,64 @@ std::vector<size_t> structuralOffsets(const std::string& t, const char* which) {
   return o;
 }
 
+// dialect spellings of a compact JSON text (same value): unquoted identifier keys, single quotes
+std::string dialectUnquoteKeys(Rng& r, const std::string& b, bool* changed = nullptr) {
+  std::string out;
+  for (size_t j = 0; j < b.size(); j++) {
+    if (b[j] == '"') {
+      size_t e = j + 1;
+      bool ident = true;
+      while (e < b.size() && b[e] != '"') {
+        char c = b[e];
+        if (!((c >= '0' && c <= '9') || (c >= '_' && c <= 'z') || (c >= 'A' && c <= 'Z')) || c == '\\')
+          ident = false;
+        if (c == '\\')
+          e++;
+        e++;
+      }
+      size_t a = e + 1;
+      while (a < b.size() && (b[a] == ' ' || b[a] == '\t' || b[a] == '\n' || b[a] == '\r'))
+        a++;
+      bool isKey = a < b.size() && b[a] == ':';
+      if (isKey && ident && e > j + 1 && r.chance(2, 3)) {
+        out += b.substr(j + 1, e - j - 1);
+        if (changed)
+          *changed = true;
+      } else {
+        out += b.substr(j, e - j + 1);
+      }
+      j = e;
+    } else {
+      out += b[j];
+    }
+  }
+  return out;
+}
+std::string dialectSingleQuotes(Rng& r, const std::string& b) {
+  std::string out;
+  for (size_t j = 0; j < b.size(); j++) {
+    if (b[j] == '"') {
+      size_t e = j + 1;
+      bool plain = true;
+      while (e < b.size() && b[e] != '"') {
+        if (b[e] == '\\' || b[e] == '\'')
+          plain = false;
+        if (b[e] == '\\')
+          e++;
+        e++;
+      }
+      if (plain && r.chance(2, 3))
+        out += "'" + b.substr(j + 1, e - j - 1) + "'";
+      else
+        out += b.substr(j, e - j + 1);
+      j = e;
+    } else {
+      out += b[j];
+    }
+  }
+  return out;
+}
+
 }  // namespace
 
 Plan generate(const std::string& mode, uint64_t seed, uint64_t run) {
@@ -1134,8 +1192,15 @@ Plan generate(const std::string& mode, uint64_t seed, uint64_t run) {
     p.ops.push_back(op);
   } else if (mode == "any" || mode == "anyfault") {
     // any bytes: valid, truncated, mutated, spliced, random
-    Val v = genValue(r, go);
+    GenOpts ga = go;
+    if (r.chance(1, 4))
+      ga.maxStr = 140;
+    Val v = genValue(r, ga);
     std::string b = encodeValid(r, v, mp, r.chance(1, 2));
+    if (!mp && r.chance(1, 4))
+      b = dialectUnquoteKeys(r, b);
+    if (!mp && r.chance(1, 6))
+      b = dialectSingleQuotes(r, b);
     unsigned sel = unsigned(r.below(100));
     Op op = mkop("deser");
     fmt(op);
@@ -1250,13 +1315,24 @@ Plan generate(const std::string& mode, uint64_t seed, uint64_t run) {
       size_t at = closers[r.below(closers.size())];
       b[at] = b[at] == ']' ? '}' : ']';
       why = "mismatched closing bracket";
-    } else {
+    } else if (sel < 88) {
       // keyword with a wrong letter
       static const char* bad[] = {"[trxe]", "[fals]", "[nul]", "{\"a\":tru }", "[nulL]", "[True]", "[1,flase]"};
       b = bad[r.below(7)];
       why = "misspelt keyword";
+    } else {
+      // a numeric literal longer than the documented 63 characters is not accepted (and is parsed safely)
+      size_t len = 64 + size_t(r.below(r.chance(1, 2) ? 3 : 40));
+      std::string num = r.chance(1, 2) ? "1." : "-12.5";
+      while (num.size() < len)
+        num += r.chance(1, 6) ? char('1' + r.below(9)) : '0';
+      b = r.chance(1, 2) ? "[" + num + "]" : "{\"n\":" + num + "}";
+      why = "numeric literal of " + std::to_string(len) + " characters";
+      op.set("expect", "notok");
     }
-    op.setq("b", b).set("expect", "InvalidInput").setq("why", why).set("cls", "C10:wrong-token");
+    op.setq("b", b).setq("why", why).set("cls", "C10:wrong-token");
+    if (!op.has("expect"))
+      op.set("expect", "InvalidInput");
     if (depthOf(v) > ARDUINOJSON_DEFAULT_NESTING_LIMIT)
       op.set("nl", int(depthOf(v)));
     static const char* kj[] = {"cptr", "cptr_n", "istream", "custom", "astream", "std"};
@@ -1590,7 +1666,24 @@ Plan generate(const std::string& mode, uint64_t seed, uint64_t run) {
     op.setq("tail", t1).setq("tail2", t2);
     p.ops.push_back(op);
   } else if (mode == "faultenum") {
-    Val v = genValue(r, go);
+    GenOpts gf = go;
+    gf.maxStr = 140;  // strings and keys that make the string builder grow several times
+    Val v = genValue(r, gf);
+    if (r.chance(1, 2)) {
+      // keys of 32+ identifier characters (the builder starts with 31)
+      Val o = Val::obj();
+      size_t n = 1 + size_t(r.below(3));
+      for (size_t j = 0; j < n; j++) {
+        std::string key(size_t(28 + r.below(80)), 'k');
+        for (auto& c : key)
+          c = char('a' + r.below(26));
+        o.o.emplace_back(key, genScalar(r, gf));
+      }
+      if (v.k == K::Arr)
+        v.a.push_back(o);
+      else
+        v = o;
+    }
     if (!v.isContainer()) {
       Val w = Val::arr();
       w.a.push_back(v);
@@ -1599,7 +1692,12 @@ Plan generate(const std::string& mode, uint64_t seed, uint64_t run) {
     }
     Op op = mkop("deser");
     fmt(op);
-    op.setq("b", encodeValid(r, v, mp, false));
+    std::string fb = encodeValid(r, v, mp, false);
+    if (!mp && r.chance(1, 2))
+      fb = dialectUnquoteKeys(r, fb);
+    if (!mp && r.chance(1, 4))
+      fb = dialectSingleQuotes(r, fb);
+    op.setq("b", fb);
     if (depthOf(v) > ARDUINOJSON_DEFAULT_NESTING_LIMIT)
       op.set("nl", int(depthOf(v)));
     if (r.chance(1, 3))
